@@ -9,6 +9,7 @@ import (
 	"go/parser"
 	"go/printer"
 	"go/token"
+	"golang.org/x/tools/go/ast/astutil"
 	"os"
 	"os/exec"
 	"path/filepath"
@@ -108,7 +109,8 @@ func BuildHookOverlay(repo string, hooks []HookSpec, substs []SubstSpec) (map[st
 		file  *ast.File
 		path  string
 		add   []string
-		dirty bool // call sites rewritten (the file must be emitted even if nothing is appended)
+		dirty bool            // call sites rewritten (the file must be emitted even if nothing is appended)
+		needs map[string]bool // import names used by appended declarations
 	}
 	edits := map[string]*fileEdit{}
 	getFile := func(path string) (*fileEdit, error) {
@@ -229,9 +231,29 @@ func BuildHookOverlay(repo string, hooks []HookSpec, substs []SubstSpec) (map[st
 			if n > 0 {
 				fe.dirty = true
 			}
+			declHere := n > 0 && !declared && !noDecl
+			if n > 0 && !declHere && !fe.needs[local] {
+				// if every use of the import in this file was rewritten, drop the import
+				for _, im := range fe.file.Imports {
+					ip := strings.Trim(im.Path.Value, "\"")
+					base := ip[strings.LastIndex(ip, "/")+1:]
+					if (base == parts[0] || ip == parts[0]) && !astutil.UsesImport(fe.file, ip) {
+						if im.Name != nil {
+							astutil.DeleteNamedImport(fe.fset, fe.file, im.Name.Name, ip)
+						} else {
+							astutil.DeleteImport(fe.fset, fe.file, ip)
+						}
+						break
+					}
+				}
+			}
 			if n > 0 && !declared {
 				if !noDecl {
 					fe.add = append(fe.add, fmt.Sprintf("var %s = %s.%s\n", s.To, local, parts[1]))
+					if fe.needs == nil {
+						fe.needs = map[string]bool{}
+					}
+					fe.needs[local] = true
 				} else {
 					fe.add = append(fe.add, "// "+s.To+" is declared by the harness\n")
 				}
